@@ -231,7 +231,8 @@ def range_tables(run):
     # every expression argument bound to a rule parameter went through the check
     m = run.anchor(R, "instruction::resolve_instruction_match_inner")
     if m:
-        sets = [(bi, t) for bi, t in m.calls() if (t.get("resolved") or "").endswith("EvalContext::set_local")]
+        from rules_asm import binding_calls
+        sets = binding_calls(prog, m, ("set_local",))
         ok = bool(sets)
         bad = []
         for bi, t in sets:
@@ -531,7 +532,8 @@ def constrained_value_tested(run, R="RNG"):
                     bt = T.bool_test(f, t2)
                     if bt:
                         tests.append(bt)
-            binds = [(b2, t2) for b2, t2 in f.calls() if re.search(r"EvalContext::set_local", t2.get("callee") or "") and any(value_depends_on(f, a, dl) for a in t2["args"])]
+            from rules_asm import binding_calls
+            binds = [(b2, t2) for b2, t2 in binding_calls(run.prog, f, ("set_local",)) if any(value_depends_on(f, a, dl) for a in t2["args"])]
             ok = bool(tests) and bool(binds) and all(any(f.edge_dominates(sb, fe, b2) for te, fe, sb in tests) for b2, _ in binds)
             root = f.raw.get("root") or f.id
             run.check(ok, R, "%s|constrained-value-tested|%s" % (R, root.split("::")[-1]), f.loc(t["span"]),
